@@ -1,18 +1,31 @@
-"""Fail-closed `ast` extractor for the stub layout (C12): reads the literals of monkeytype/stubs.py the Coq model
+"""Fail-closed extractor for the stub layout (C12): obtains the literals of monkeytype/stubs.py that the Coq model
 Model/StubRender.v copies by hand and writes coq/Gen/StubRenderConstants.v; Props/C12.v proves (Example
 ex_source_literals) that the model's copies equal what the source says now.
 
-What is read:
-  * FunctionStub.render: the `render_signature(self.signature, <N> - len(s), prefix)` limit N; the "async " / "def "
-    pieces; the if/elif chain `self.kind == FunctionKind.X` -> `s = prefix + "@<decorator>\\n" + s`;
-  * render_signature: the extra indentation of a wrapped parameter line (`line = "<indent>" + f_param`) and the
-    single-line separator (`", ".join(formatted_params)`);
-  * ClassStub.render: the prefix handed to function stubs; ModuleStub.render: the separator joining the parts.
-"""
-import ast
+The constants are obtained by EVALUATION, not by matching the shape of the source: harness/stubrender_probe.py is run
+in a subprocess whose only import path is the tree under test; it renders a fixed battery of ~1,300 hand-built stubs
+(every parameter-kind sequence up to length 3 in four annotation/default variants, single line and wrapped, three
+prefixes, async, return annotations; names of every length around the wrap limit; every FunctionKind; module-prefix
+stripping with overlapping, nested, look-alike and name-like modules in several listing orders; ClassStub / ModuleStub
+orderings) with the tree's own FunctionStub / ClassStub / ModuleStub / render_signature.  This module then
+  1. reads each constant off a designated output (the wrap limit as the common threshold of four name-length sweeps,
+     the decorator lines per kind, the wrapped-line indent, the single-line separator, the class body prefix, the
+     number of newlines between module parts), and
+  2. re-renders EVERY probe with `reference` below — a renderer whose only parameters are those constants and the
+     stripping rule re.sub(r"(?<![\\w.])(?:m1|m2|...)\\.", "", line) with the longest module first — and requires all
+     outputs to be equal, character for character.
+Any refactoring that keeps the output keeps the constants; anything the constants do not describe (a probe that raises,
+an output the reference does not reproduce, a limit outside the sweep, an import that does not come from the tree)
+raises ExtractError and nothing is written.  `stub_strip_pattern` is the canonical spelling of the rule validated in
+step 2 (the source may spell an equivalent regular expression differently)."""
+import json
 import os
+import re
+import subprocess
 
 from harness import common
+
+STRIP_PATTERN = r"(?<![\w.])(?:%s)\."
 
 
 class ExtractError(Exception):
@@ -23,194 +36,193 @@ def _cs(s):
     return '"' + s.replace('"', '""') + '"'
 
 
-def _class(tree, name):
-    for node in tree.body:
-        if isinstance(node, ast.ClassDef) and node.name == name:
-            return node
-    raise ExtractError(f"class {name} not found")
+# ------------------------------------------------------------------------------------------------
+# the reference renderer (Python twin of Model/StubRender.v), parameterised by the constants only
+# ------------------------------------------------------------------------------------------------
+def ref_parameter(p):
+    s = p["name"]
+    if p["anno"] is not None:
+        s += ": " + p["anno"]
+    if p["default"]:
+        s += " = ..."
+    return {"VP": "*", "VK": "**"}.get(p["kind"], "") + s
 
 
-def _method(cls, name):
-    for node in cls.body:
-        if isinstance(node, ast.FunctionDef) and node.name == name:
-            return node
-    raise ExtractError(f"method {cls.name}.{name} not found")
-
-
-def _func(tree, name):
-    for node in tree.body:
-        if isinstance(node, ast.FunctionDef) and node.name == name:
-            return node
-    raise ExtractError(f"function {name} not found")
-
-
-def _const_str(node):
-    if isinstance(node, ast.Constant) and isinstance(node.value, str):
-        return node.value
-    raise ExtractError(f"string literal expected at line {getattr(node, 'lineno', '?')}")
-
-
-def function_stub_render(tree):
-    fn = _method(_class(tree, "FunctionStub"), "render")
-    limit = None
-    for node in ast.walk(fn):
-        if isinstance(node, ast.Call) and isinstance(node.func, ast.Name) and node.func.id == "render_signature":
-            if len(node.args) != 3:
-                raise ExtractError("render_signature call in FunctionStub.render: 3 arguments expected")
-            a = node.args[1]
-            if not (isinstance(a, ast.BinOp) and isinstance(a.op, ast.Sub) and isinstance(a.left, ast.Constant)
-                    and isinstance(a.left.value, int) and isinstance(a.right, ast.Call)
-                    and isinstance(a.right.func, ast.Name) and a.right.func.id == "len"):
-                raise ExtractError("render_signature limit is not `<int> - len(s)`")
-            if limit is not None:
-                raise ExtractError("two render_signature calls in FunctionStub.render")
-            limit = a.left.value
-    if limit is None:
-        raise ExtractError("no render_signature call in FunctionStub.render")
-    pieces = [n.value.value for n in ast.walk(fn)
-              if isinstance(n, ast.AugAssign) and isinstance(n.op, ast.Add) and isinstance(n.value, ast.Constant)
-              and isinstance(n.value.value, str)]
-    if pieces != ["async "]:
-        raise ExtractError(f"`s += <literal>` pieces of FunctionStub.render are {pieces}, expected ['async ']")
-    defs = [n.value.left.value for n in ast.walk(fn)
-            if isinstance(n, ast.AugAssign) and isinstance(n.value, ast.BinOp) and isinstance(n.value.left, ast.Constant)
-            and isinstance(n.value.left.value, str)]
-    if defs != ["def "]:
-        raise ExtractError(f"`s += <literal> + self.name` of FunctionStub.render gives {defs}, expected ['def ']")
-    # the decorator chain
-    decorators = {}
-    chain = [n for n in fn.body if isinstance(n, ast.If)]
-    chain = [n for n in chain if isinstance(n.test, ast.Compare)]
-    if len(chain) != 1:
-        raise ExtractError("expected one if/elif chain on self.kind in FunctionStub.render")
-    node = chain[0]
-    while True:
-        t = node.test
-        if not (isinstance(t, ast.Compare) and len(t.ops) == 1 and isinstance(t.ops[0], ast.Eq)
-                and isinstance(t.left, ast.Attribute) and t.left.attr == "kind"
-                and isinstance(t.comparators[0], ast.Attribute) and isinstance(t.comparators[0].value, ast.Name)
-                and t.comparators[0].value.id == "FunctionKind"):
-            raise ExtractError(f"decorator chain test not understood at line {node.lineno}")
-        kind = t.comparators[0].attr
-        if len(node.body) != 1 or not isinstance(node.body[0], ast.Assign):
-            raise ExtractError(f"decorator chain body not understood at line {node.lineno}")
-        v = node.body[0].value     # prefix + "@x\n" + s
-        if not (isinstance(v, ast.BinOp) and isinstance(v.left, ast.BinOp) and isinstance(v.left.left, ast.Name)
-                and v.left.left.id == "prefix" and isinstance(v.right, ast.Name) and v.right.id == "s"):
-            raise ExtractError(f"decorator assignment not `prefix + <literal> + s` at line {node.lineno}")
-        lit = _const_str(v.left.right)
-        if not (lit.startswith("@") and lit.endswith("\n") and lit.count("\n") == 1):
-            raise ExtractError(f"decorator literal {lit!r} not of the form '@name\\n'")
-        if kind in decorators:
-            raise ExtractError(f"kind {kind} twice in the decorator chain")
-        decorators[kind] = lit[1:-1]
-        if len(node.orelse) == 1 and isinstance(node.orelse[0], ast.If):
-            node = node.orelse[0]
-        elif not node.orelse:
-            break
-        else:
-            raise ExtractError("decorator chain has an else branch")
-    return limit, decorators
-
-
-def strip_pattern(tree):
-    """`pattern = r"<literal with one %s>" % "|".join(re.escape(m) for m in modules)` followed by
-    `s = re.sub(pattern, "", s)`, modules = sorted(set(self.strip_modules), key=len, reverse=True)"""
-    fn = _method(_class(tree, "FunctionStub"), "render")
-    lits = [n.value.left.value for n in ast.walk(fn)
-            if isinstance(n, ast.Assign) and len(n.targets) == 1 and isinstance(n.targets[0], ast.Name)
-            and n.targets[0].id == "pattern" and isinstance(n.value, ast.BinOp) and isinstance(n.value.op, ast.Mod)
-            and isinstance(n.value.left, ast.Constant) and isinstance(n.value.left.value, str)]
-    if len(lits) != 1 or lits[0].count("%s") != 1:
-        raise ExtractError("`pattern = <literal> % ...` not found exactly once in FunctionStub.render")
-    subs = [n for n in ast.walk(fn)
-            if isinstance(n, ast.Call) and isinstance(n.func, ast.Attribute) and n.func.attr == "sub"
-            and isinstance(n.func.value, ast.Name) and n.func.value.id == "re"]
-    if len(subs) != 1 or len(subs[0].args) != 3 or not (isinstance(subs[0].args[0], ast.Name) and subs[0].args[0].id == "pattern") \
-            or not (isinstance(subs[0].args[1], ast.Constant) and subs[0].args[1].value == ""):
-        raise ExtractError("`re.sub(pattern, \"\", s)` not found exactly once in FunctionStub.render")
-    order = [n for n in ast.walk(fn)
-             if isinstance(n, ast.Call) and isinstance(n.func, ast.Name) and n.func.id == "sorted"
-             and {k.arg: ast.unparse(k.value) for k in n.keywords} == {"key": "len", "reverse": "True"}]
-    if len(order) != 1:
-        raise ExtractError("`sorted(..., key=len, reverse=True)` of the modules not found in FunctionStub.render")
-    return lits[0]
-
-
-def kinds(tree):
-    cls = _class(tree, "FunctionKind")
+def ref_entries(params):
     out = []
-    for node in cls.body:
-        if isinstance(node, ast.Assign) and len(node.targets) == 1 and isinstance(node.targets[0], ast.Name):
-            out.append(node.targets[0].id)
-    if not out:
-        raise ExtractError("FunctionKind has no members")
+    pos_sep, kw_sep = False, True
+    for p in params:
+        k = p["kind"]
+        if k == "PO":
+            pos_sep = True
+        elif pos_sep:
+            out.append("/")
+            pos_sep = False
+        if k == "VP":
+            kw_sep = False
+        elif k == "KO" and kw_sep:
+            out.append("*")
+            kw_sep = False
+        out.append(ref_parameter(p))
+    if pos_sep:
+        out.append("/")
     return out
 
 
-def signature_literals(tree):
-    fn = _func(tree, "render_signature")
-    indents = [n.value.left.value for n in ast.walk(fn)
-               if isinstance(n, ast.Assign) and isinstance(n.targets[0], ast.Name) and n.targets[0].id == "line"
-               and isinstance(n.value, ast.BinOp) and isinstance(n.value.left, ast.Constant)]
-    if len(indents) != 1 or not isinstance(indents[0], str):
-        raise ExtractError("`line = <literal> + f_param` not found exactly once in render_signature")
-    seps = [n.func.value.value for n in ast.walk(fn)
-            if isinstance(n, ast.Call) and isinstance(n.func, ast.Attribute) and n.func.attr == "join"
-            and isinstance(n.func.value, ast.Constant) and n.args and isinstance(n.args[0], ast.Name)
-            and n.args[0].id == "formatted_params"]
-    if len(seps) != 1:
-        raise ExtractError("`<literal>.join(formatted_params)` not found exactly once in render_signature")
-    return indents[0], seps[0]
+def ref_signature(K, params, ret, max_len, prefix):
+    entries = ref_entries(params)
+    tail = (" -> " + ret) if ret is not None else ""
+    single = "(" + K["sep"].join(entries) + ")" + tail
+    if max_len is None or len(single) <= max_len:
+        return single
+    lines = ["("]
+    for i, e in enumerate(entries):
+        lines.append(prefix + K["indent"] + e + ("," if i != len(entries) - 1 else ""))
+    lines.append(prefix + ")" + tail)
+    return "\n".join(lines)
 
 
-def class_prefix(tree):
-    fn = _method(_class(tree, "ClassStub"), "render")
-    vals = set()
-    for n in ast.walk(fn):
-        if isinstance(n, ast.Call) and isinstance(n.func, ast.Attribute) and n.func.attr == "render":
-            for kw in n.keywords:
-                if kw.arg == "prefix":
-                    vals.add(_const_str(kw.value))
-    if len(vals) != 1:
-        raise ExtractError(f"ClassStub.render passes prefixes {sorted(vals)}; exactly one expected")
-    return vals.pop()
+def ref_strip(mods, s):
+    mods = sorted(set(mods), key=len, reverse=True)
+    if not mods:
+        return s
+    return re.sub(STRIP_PATTERN % "|".join(re.escape(m) for m in mods), "", s)
 
 
-def module_separator(tree):
-    fn = _method(_class(tree, "ModuleStub"), "render")
-    seps = [n.func.value.value for n in ast.walk(fn)
-            if isinstance(n, ast.Call) and isinstance(n.func, ast.Attribute) and n.func.attr == "join"
-            and isinstance(n.func.value, ast.Constant) and n.args and isinstance(n.args[0], ast.Name)
-            and n.args[0].id == "parts"]
-    if len(seps) != 1 or set(seps[0]) != {"\n"}:
-        raise ExtractError("`<newlines>.join(parts)` not found exactly once in ModuleStub.render")
-    return len(seps[0])
+def ref_function(K, f, prefix):
+    s = prefix + ("async " if f["async"] else "") + "def " + f["name"]
+    s += ref_signature(K, f["params"], f["ret"], K["max"] - len(s), prefix) + ": ..."
+    s = ref_strip(f["strip"], s)
+    for d in reversed(K["decorators"][f["kind"]]):
+        s = prefix + "@" + d + "\n" + s
+    return s
+
+
+def ref_class(K, c):
+    fs = sorted(c["functions"], key=lambda f: f["name"])
+    return "\n".join(["class " + c["name"] + ":"] + [ref_function(K, f, K["class_prefix"]) for f in fs])
+
+
+def ref_module(K, m):
+    parts = [ref_function(K, f, "") for f in sorted(m["functions"], key=lambda f: f["name"])]
+    parts += [ref_class(K, c) for c in sorted(m["classes"], key=lambda c: c["name"])]
+    return ("\n" * K["part_newlines"]).join(parts)
+
+
+def reference(K, p):
+    if p["what"] == "function":
+        return ref_function(K, p, p["prefix"])
+    if p["what"] == "signature":
+        return ref_signature(K, p["params"], p["ret"], p["max"], p["prefix"])
+    if p["what"] == "class":
+        return ref_class(K, p)
+    return ref_module(K, p)
+
+
+# ------------------------------------------------------------------------------------------------
+# evaluation
+# ------------------------------------------------------------------------------------------------
+def run_probes():
+    repo = os.path.realpath(common.REPO)
+    script = os.path.join(os.path.dirname(os.path.abspath(__file__)), "stubrender_probe.py")
+    env = {k: v for k, v in os.environ.items() if not k.startswith("PYTHON") and k != "MONKEYTYPE_TRACE_MODULES"}
+    env.update({"PYTHONPATH": repo, "PYTHONHASHSEED": "0", "PYTHONDONTWRITEBYTECODE": "1"})
+    try:
+        p = subprocess.run([common.PY, "-P", script], env=env, cwd="/", capture_output=True, text=True, timeout=300)
+    except (OSError, subprocess.SubprocessError) as e:
+        raise ExtractError(f"probe process: {type(e).__name__}: {e}")
+    if p.returncode != 0:
+        raise ExtractError("probe process failed: " + (p.stderr.strip().splitlines() or ["?"])[-1][:300])
+    try:
+        data = json.loads(p.stdout)
+    except ValueError:
+        raise ExtractError("probe process printed no JSON")
+    if not os.path.realpath(data["file"]).startswith(repo + os.sep):
+        raise ExtractError(f"probes ran against {data['file']}, not against {repo}")
+    by_id = {}
+    for pr in data["probes"]:
+        if "raised" in pr:
+            raise ExtractError(f"probe {pr['id']} ({pr['what']} {pr.get('name', '')[:20]!r}): render raised {pr['raised']}")
+        by_id[pr["id"]] = pr
+    return data["kinds"], data["probes"], by_id
+
+
+def read_constants(kinds, by_id):
+    K = {}
+    # single-line separator
+    out = by_id["F0"]["output"]
+    if not (out.startswith("(a") and out.endswith("b)") and len(out) > 4):
+        raise ExtractError(f"render_signature of (a, b) gives {out!r}")
+    K["sep"] = out[2:-2]
+    # the wrap limit: first wrapped name length in each of the four sweeps of empty signatures
+    limits = set()
+    for plen in (0, 2):
+        for a in (0, 1):
+            lens = sorted(int(i.split("_")[1]) for i in by_id if i.startswith(f"B{plen}{a}_"))
+            wrapped = [ln for ln in lens if "\n" in by_id[f"B{plen}{a}_{ln}"]["output"]]
+            if not wrapped or wrapped[0] == lens[0] or wrapped != list(range(wrapped[0], lens[-1] + 1)):
+                raise ExtractError("the wrap limit is outside the probed range or not a threshold")
+            # wrapped iff len(prefix + [async ]def name) + len("()") > limit
+            limits.add(plen + 6 * a + 4 + wrapped[0] + 2 - 1)
+    if len(limits) != 1:
+        raise ExtractError(f"the wrap limit is not `<N> - len(prefix + [async ]def name)`: thresholds give {sorted(limits)}")
+    K["max"] = limits.pop()
+    # indentation of a wrapped parameter line
+    lines = by_id["Br00_129"]["output"].split("\n")
+    if len(lines) != 3 or not lines[1].endswith("a") or lines[1][:-1].strip(" \t") != "":
+        raise ExtractError(f"wrapped one-parameter signature has lines {lines[1:]!r}")
+    K["indent"] = lines[1][:-1]
+    # decorator lines of every kind
+    K["decorators"] = {}
+    for k in kinds:
+        lines = by_id[f"C_{k}_0"]["output"].split("\n")
+        if not all(ln.startswith("@") and ln[1:].isidentifier() for ln in lines[:-1]):
+            raise ExtractError(f"kind {k}: lines above the def are {lines[:-1]!r}")
+        K["decorators"][k] = [ln[1:] for ln in lines[:-1]]
+    # class body prefix
+    lines = by_id["D1"]["output"].split("\n")
+    if len(lines) != 2 or "def " not in lines[1] or lines[1][:lines[1].index("def ")].strip(" \t") != "":
+        raise ExtractError(f"ClassStub with one method renders {lines!r}")
+    K["class_prefix"] = lines[1][:lines[1].index("def ")]
+    # newlines between the parts of a module
+    K["part_newlines"] = 0
+    m = by_id["D2"]
+    first = ref_function(K, sorted(m["functions"], key=lambda f: f["name"])[0], "")
+    if not m["output"].startswith(first):
+        raise ExtractError("ModuleStub does not start with its first function stub (by name)")
+    rest = m["output"][len(first):]
+    K["part_newlines"] = len(rest) - len(rest.lstrip("\n"))
+    if K["part_newlines"] == 0:
+        raise ExtractError("no newline between the parts of a module stub")
+    return K
 
 
 def render() -> str:
-    p = os.path.join(common.REPO, "monkeytype", "stubs.py")
-    tree = ast.parse(open(p).read(), filename=p)
-    limit, decorators = function_stub_render(tree)
-    ks = kinds(tree)
-    unknown = [k for k in decorators if k not in ks]
-    if unknown:
-        raise ExtractError(f"decorator chain mentions unknown kinds {unknown}")
-    indent, sep = signature_literals(tree)
-    rows = "; ".join(f"({_cs(k)}, [{_cs(decorators[k])}])" if k in decorators else f"({_cs(k)}, [])" for k in ks)
+    kinds, probes, by_id = run_probes()
+    if not kinds or len(set(kinds)) != len(kinds):
+        raise ExtractError(f"FunctionKind members: {kinds}")
+    K = read_constants(kinds, by_id)
+    # the constants must account for every output of the battery
+    for p in probes:
+        want = reference(K, p)
+        if p["output"] != want:
+            raise ExtractError(f"probe {p['id']}: the tree renders {p['output'][:200]!r}, the constants "
+                               f"(limit {K['max']}, indent {K['indent']!r}, separator {K['sep']!r}, longest-module-first "
+                               f"stripping) give {want[:200]!r}")
+    rows = "; ".join("(%s, [%s])" % (_cs(k), "; ".join(_cs(d) for d in K["decorators"][k])) for k in kinds)
     return "\n".join([
         "(* GENERATED by harness/extract_stubrender.py from /repo's current source. Do not edit. *)",
         "From Coq Require Import List String ZArith.",
         "Import ListNotations.",
         "Open Scope string_scope.",
         "",
-        f"Definition stub_max_line_len : Z := {limit}%Z.",
+        f"Definition stub_max_line_len : Z := {K['max']}%Z.",
         f"Definition stub_decorators : list (string * list string) := [{rows}].",
-        f"Definition stub_wrapped_param_indent : string := {_cs(indent)}.",
-        f"Definition stub_single_line_separator : string := {_cs(sep)}.",
-        f"Definition stub_class_body_prefix : string := {_cs(class_prefix(tree))}.",
-        f"Definition stub_part_separator_newlines : nat := {module_separator(tree)}.",
-        f"Definition stub_strip_pattern : string := {_cs(strip_pattern(tree))}.",
+        f"Definition stub_wrapped_param_indent : string := {_cs(K['indent'])}.",
+        f"Definition stub_single_line_separator : string := {_cs(K['sep'])}.",
+        f"Definition stub_class_body_prefix : string := {_cs(K['class_prefix'])}.",
+        f"Definition stub_part_separator_newlines : nat := {K['part_newlines']}.",
+        f"Definition stub_strip_pattern : string := {_cs(STRIP_PATTERN)}.",
         "",
     ])
 
@@ -220,9 +232,9 @@ def regenerate():
     path = os.path.join(common.COQ, "Gen", "StubRenderConstants.v")
     try:
         text = render()
-    except (ExtractError, SyntaxError, OSError, AttributeError, KeyError, IndexError, TypeError) as e:
-        # keep the previously generated file: the proof status is reported as broken by the caller, but the
-        # correspondence harness can still be built (against the last understood model) to search for a failing input
+    except (ExtractError, SyntaxError, OSError, AttributeError, KeyError, IndexError, TypeError, ValueError) as e:
+        if os.path.exists(path):
+            os.remove(path)
         return False, f"{type(e).__name__}: {e}"
     old = open(path).read() if os.path.exists(path) else None
     if old != text:
